@@ -1,6 +1,7 @@
 """C15 - finalize runs its callback exactly once per subscription."""
 import itertools
 from common import *
+import ileave2
 
 SHAPES = ["plain", "(take_before 0)", "(take_before 1)", "(take_before 2)", "(take_after 0)", "(take_after 1)", "(take_after 2)"]
 STIMS = ["(n 1)", "c", "(e 7)", "u"]
@@ -61,7 +62,7 @@ def run(tier, seed, replay=None):
     proof_stage(rep, "C15")
     if not build_stage(rep):
         return rep.finish()
-    cases = load_replay_case(replay) if replay else hot_cases(tier) + cold_cases(tier) + disconnected_cases(tier) + race_cases(tier)
+    cases = load_replay_case(replay) if replay else hot_cases(tier) + cold_cases(tier) + disconnected_cases(tier) + race_cases(tier) + ileave2.cases(tier, Rng(seed), kinds=("fin",))
     correspond(rep, "C15", cases, "C15_exactly_once_right_after / C15_at_most_once / C15_once_when_unsubscribed / C15_race_once")
     c = rep.coverage
     hist = {}
